@@ -159,7 +159,17 @@ var stdSome = []string{"fmt", "os", "io", "strings", "math/rand", "crypto/rand",
 var baseNames = []string{"d", "d", "d", "util", "rand", "x", "v2", "pkg", "go-lib", "My.Pkg", "123", "9lives", "type", "any", "string", "err", "len", "init", "main", "_", "a_b", "ÄÖ", "Kelvin", "İstanbul", "d1", "d2", "C", "c", "fmt", "os"}
 var hosts = []string{"a.com", "b.com", "c.org/x", "github.com/u", "example.com/very/long/path", "", "gopkg.in", "9fans.net/go", "Azure.com/sdk", "B2.io", "-dash.org"}
 
+// path elements over the Unicode categories that matter for identifiers: letters of every kind
+// (Lu Ll Lt Lm Lo), decimal digits of other scripts (Nd — legal in identifiers), OTHER numbers
+// (No: superscripts, subscripts, fractions, circled — not legal), letter numbers (Nl: Roman
+// numerals — not legal), marks, connector punctuation, symbols, format characters
+var unicodeElems = []string{"h₂o", "m²", "x½", "Ⅳ", "ⅳx", "①a", "a①", "٣abc", "abc٣", "४२", "проект", "世界", "é", "e\u0301", "ｆｕｌｌ", "ǅx", "ʰa", "ß", "İ", "K",
+	"a‿b", "a\u200db", "x😀", "㊿", "〇", "ᛮ", "½", "²", "x₂y³", "ℕ", "µ", "ª", "a\u00adb", "𝟘x", "x𝟡"}
+
 func genPath(r *Rng) string {
+	if r.Chance(4) {
+		return pick(r, hosts) + "/" + strings.NewReplacer("\\u0301", "\u0301", "\\u200d", "\u200d", "\\u00ad", "\u00ad").Replace(pick(r, unicodeElems))
+	}
 	switch r.Intn(12) {
 	case 0, 1, 2:
 		return pick(r, stdSome)
@@ -872,7 +882,14 @@ func genFileSetup(r *Rng, f int, pool *PathPool, cfg FileCfg) []Op {
 		if !r.Chance(cfg.localPct) || p == "C" {
 			p = "example.org/self"
 		}
-		ops = append(ops, Op{Kind: OpFile, F: f, Str: []string{"pathname", p, pick(r, []string{"main", "p", "foo"})}})
+		// package NAMES with a conventional meaning (external test packages, main, versions): the
+		// name must have no influence on what counts as the local path
+		name := pick(r, []string{"main", "p", "foo", "foo_test", "p_test", "main_test", "v2", "internal", "vendor", "x_test_x", "Test", "d"})
+		ops = append(ops, Op{Kind: OpFile, F: f, Str: []string{"pathname", p, name}})
+		if strings.HasSuffix(name, "_test") && r.Bool() && sanePath(p) {
+			// … and neither has the path that such a name conventionally goes with
+			pool.Paths = append(pool.Paths, p+"_test")
+		}
 	}
 	if r.Chance(cfg.prefixPct) {
 		ops = append(ops, Op{Kind: OpSet, F: f, Str: []string{"prefix", pick(r, []string{"pkg", "p", "x_y", "d"})}})
